@@ -163,11 +163,38 @@ fn cmd_unused(args: &Args) {
     });
 }
 
+fn cmd_threads(args: &Args) {
+    let mut cases = match args.get("cases") {
+        Some(p) => read_ndjson(p),
+        None => vec![],
+    };
+    if args.flag("examples") {
+        cases.extend(core::example_cases());
+    }
+    let events: Vec<J> = match args.get("events") {
+        Some(p) => read_ndjson(p),
+        None => core::default_events(),
+    };
+    let tz = vrl::compiler::TimeZone::Named(chrono_tz::UTC);
+    let threads = args.num("threads", 8);
+    let reps = args.num("reps", 3);
+    std::panic::set_hook(Box::new(|_| {}));
+    // programs are processed one after the other per shard; each uses `threads` threads itself
+    sharded(cases, args.num("shards", 2), args.req("out"), |_, part, w| {
+        for case in part {
+            for ev in core::threads_case(case, &events, &tz, threads, reps) {
+                writeln!(w, "{ev}").unwrap();
+            }
+        }
+    });
+}
+
 fn main() {
     let args = parse_args();
     match args.cmd.as_str() {
         "core" => cmd_core(&args),
         "unused" => cmd_unused(&args),
+        "threads" => cmd_threads(&args),
         "nfn" => println!("{}", vrl::stdlib::all().len()),
         _ => {
             eprintln!("usage: vh <core|...> [--opt value]...");
